@@ -230,6 +230,10 @@ func Run(r *fw.Run) {
 			}
 		}
 	}
+	// byte sweep over names: alone and next to a fixed neighbour
+	for _, n := range zipx.SweepNames() {
+		jobs = append(jobs, job{[]string{n}}, job{[]string{"N", n}})
+	}
 	r.Bounds["base_lists"] = len(jobs)
 	allModes := []zipref.Mode{zipref.Symlink, zipref.Dir, zipref.Irregular}
 	fw.Parallel(16, func(sh int) {
